@@ -78,7 +78,6 @@ def tame_ints(st, limit=300):
     return st
 
 
-<<<<<<< HEAD
 VEC_KEY = {"BOOLVECTOR": "bvec", "INTVECTOR": "ivec", "FLOATVECTOR": "fvec"}
 # small pool with duplicates, both zeros, infinities and NaN: exercises sort stability and unordered comparisons
 F32_SORT = [0x00000000, 0x80000000, fbits(1.0), fbits(1.0), fbits(-1.0), fbits(2.5), 0x7f800000, 0xff800000, 0x7fc00000, fbits(0.5)]
@@ -368,15 +367,6 @@ import os
 SINE_NEGATIVE = os.environ.get("PUSHR_SINE_NEG", "1") == "1"    # negative FLOATVECTOR.SINE lengths (a hang on the code before fix C09-07)
 
 
-def step_case(rng, name, names, safe_names, profile=None):
-    if name.startswith("GRAPH."):
-        return graph_case(rng, name, names, safe_names, profile)
-    st = rand_state(rng, names, safe_names)
-    if name.split(".")[0] in VEC_KEY and "." in name:
-        st = shape_vector_case(rng, name, st)
-    if name == "FLOATVECTOR.SINE":
-        st["int"] = [rng.randrange(-3 if SINE_NEGATIVE else 0, 13) for _ in st["int"]]
-=======
 def rand_id_vector(rng, maxlen=8):
     """stack ids 1..12 (repeats likely) with a sprinkling of ids that designate no stack"""
     def one():
@@ -425,10 +415,15 @@ def shape_list_state(rng, st, names, safe_names):
 
 
 def step_case(rng, name, names, safe_names, profile=None):
+    if name.startswith("GRAPH."):
+        return graph_case(rng, name, names, safe_names, profile)
     st = rand_state(rng, names, safe_names)
     if name.startswith("LIST.") and name not in ALLOCATING and rng.random() < 0.85:
         st = shape_list_state(rng, st, names, safe_names)
->>>>>>> listio
+    if name.split(".")[0] in VEC_KEY and "." in name:
+        st = shape_vector_case(rng, name, st)
+    if name == "FLOATVECTOR.SINE":
+        st["int"] = [rng.randrange(-3 if SINE_NEGATIVE else 0, 13) for _ in st["int"]]
     if name in ALLOCATING:
         st = tame_ints(st)
         st["float"] = [fbits(rng.choice([0.0, 0.5, 1.0, 1.5, 2.0, 3.0])) for _ in st["float"]]
